@@ -3,5 +3,5 @@ From Coq Require Import Extraction ExtrOcamlBasic ZArith String List.
 From Ice Require Import Model.ConvTypes Model.PrioSpec Model.GatherSpec Model.GatherMapped Model.GatherStateCycle.
 Extraction "model.ml" conv_witness failed all_ok
   supported_v6_partial parse_ip local_addrs local_ifaces listen_in_range look_of
-  gather_model mapped_model C18_mapped_checks corresponds C18_gather_checks C18_finish_checks mkCfg mkIface mkEnv mkVariant mkOcand mkOsock
+  gather_model mapped_model C18_mapped_checks udpmux_model C18_udpmux_checks corresponds C18_gather_checks C18_finish_checks mkCfg mkIface mkEnv mkVariant mkOcand mkOsock
   accept_init accept_op predict_op C18_cycle_checks.
